@@ -8,6 +8,7 @@ import (
 	"sort"
 	"strings"
 	"sync"
+	"sync/atomic"
 	"time"
 
 	"golang.org/x/tools/go/ssa"
@@ -65,6 +66,7 @@ type Engine struct {
 	touchedStb map[string]int
 	stats      Stats
 	stop       bool
+	ifconv     atomic.Int64
 }
 
 type Stats struct {
